@@ -1027,3 +1027,120 @@ _run_c03_18 = run
 def run(res, facts, tier):
     _run_c03_18(res, facts, tier)
     r9_null_paths(res, facts)
+
+
+# ----------------------------------------------------------------------------------------------- R10: indexed stores into fixed-size local arrays
+ARRAY_STORE_REVIEWED = {
+    ('DOMStringHelper::NumberToCharacters', 'theBuffer'): 'the index walks back from the length sprintf returned into the same buffer (bounded by C03-R3) towards 0',
+    ('NumberToDOMString', 'theBuffer'): 'the index walks back from the length sprintf returned into the same buffer (bounded by C03-R3) towards 0',
+    ('ElemNumber::traditionalAlphaCount', 'buf'): 'at most two code units per multiplier and one per group of the numbering resource bundle; the only bundle (Greek, static data in ElemNumber.cpp) '
+                                                   'has 4 multipliers and 3 groups, the buffer 100 units',
+    ('ElemNumber::int2alphaCount', 'buf'): 'one code unit per digit of a CountType in a radix >= 2 alphabet: at most 64 < 100, filled from the end',
+}
+
+
+def _upper_bound(e, conds, depth=0):
+    """largest value the integer expression e can have given the dominating conditions, or None"""
+    e = strip_casts(e)
+    if not isinstance(e, dict):
+        return None
+    if 'cv' in e and e.get('k') in ('Int', 'Ref', 'Bool', 'Char') and isinstance(e['cv'], int):
+        return e['cv']
+    if e.get('k') == 'Bin' and e['op'] in ('+', '-'):
+        l = _upper_bound(e['lhs'], conds, depth + 1)
+        r = strip_casts(e['rhs'])
+        if l is not None and isinstance(r, dict) and isinstance(r.get('cv'), int):
+            return l + r['cv'] if e['op'] == '+' else l - r['cv']
+        return None
+    if e.get('k') != 'Ref' or 'id' not in e or depth > 3:
+        return None
+    best = None
+    for atom, br in conds:
+        c, eff = common.norm_atom(atom, br)
+        if not isinstance(c, dict) or c.get('k') != 'Bin' or c['op'] not in ('<', '<=', '>', '>=', '=='):
+            continue
+        l, r = strip_casts(c['lhs']), strip_casts(c['rhs'])
+        op = c['op']
+        if isinstance(r, dict) and r.get('k') == 'Ref' and r.get('id') == e['id'] and not (isinstance(l, dict) and l.get('k') == 'Ref' and l.get('id') == e['id']):
+            l, r = r, l
+            op = {'<': '>', '<=': '>=', '>': '<', '>=': '<=', '==': '=='}[op]
+        if not (isinstance(l, dict) and l.get('k') == 'Ref' and l.get('id') == e['id']):
+            continue
+        if not eff:
+            if op == '==':
+                continue
+            op = {'<': '>=', '<=': '>', '>': '<=', '>=': '<'}[op]
+        if op in ('<', '<=', '=='):
+            ub = _upper_bound(r, conds, depth + 1)
+            if ub is not None:
+                v = ub - 1 if op == '<' else ub
+                best = v if best is None else min(best, v)
+    return best
+
+
+def r10_array_stores(res, facts):
+    r = res.rule('C03-R10', 'every indexed store into a fixed-size local array is within the array: the index is a constant, or the conditions that dominate the store bound it below the '
+                 'array size (through the loop condition and the guard on the length it runs to), or the site is reviewed with its reason', floor=12)
+    fired = set(); fx = set()
+    for k in facts.astidx:
+        a = facts.ast(k)
+        if a is None or not (facts.lib_path(a['file']) or common.is_fixture(a)):
+            continue
+        arrays = {}
+        for x in walk(a['body']):
+            if x.get('k') == 'Decl':
+                for v in x.get('vars', []):
+                    m = re.search(r'\[(\d+)\]$', (v.get('ty') or '').strip())
+                    if m:
+                        arrays[v['id']] = (v['n'], int(m.group(1)))
+        if not arrays:
+            continue
+        fname = strip_targs_local(short(facts.name[k]))
+        isfx = common.is_fixture(a)
+        if isfx:
+            fx.add(fname)
+        cfg = None
+        must = None
+        for x in walk(a['body']):
+            if not (x.get('k') == 'Bin' and x['op'].endswith('=') and x['op'] not in ('==', '!=', '<=', '>=')):
+                continue
+            t = strip_casts(x['lhs'])
+            if not (isinstance(t, dict) and t.get('k') == 'Index'):
+                continue
+            b = strip_casts(t['b'])
+            if not (isinstance(b, dict) and b.get('k') == 'Ref' and b.get('id') in arrays):
+                continue
+            nm, size = arrays[b['id']]
+            idx = strip_casts(t['i'])
+            post = None
+            if isinstance(idx, dict) and idx.get('k') == 'Un' and idx.get('op') in ('++', '--') and idx.get('post'):
+                post = idx['op']
+                idx = strip_casts(idx['e'])
+            site = '%s: %s[%s]' % (fname, nm, pp(t['i'])[:30])
+            if cfg is None:
+                cfg = CFG(a)
+                must = common.must_conds(cfg)
+            node = cfg_node_of(cfg, x)
+            conds = must.get(node.id, []) if node is not None else []
+            ub = _upper_bound(idx, conds)
+            if ub is not None and ub < size:
+                if not isfx:
+                    r.ok(site, 'index <= %d < %d' % (ub, size))
+            elif (fname, nm) in ARRAY_STORE_REVIEWED and not isfx:
+                r.ok(site, ARRAY_STORE_REVIEWED[(fname, nm)])
+            else:
+                if isfx:
+                    fired.add(fname)
+                else:
+                    r.violation(site, 'store into %s[%d] at an index the dominating conditions do not bound below %d (%s): input that makes it larger overwrites the stack'
+                                % (nm, size, size, 'upper bound %s' % ub if ub is not None else 'no bound found on %s' % pp(idx)[:30]), common.file_line(a, x))
+    fixture_summary(r, 'R10', fired, fx)
+    return r
+
+
+_run_c03_19 = run
+
+
+def run(res, facts, tier):
+    _run_c03_19(res, facts, tier)
+    r10_array_stores(res, facts)
